@@ -8,6 +8,7 @@ import NcVerif.Driver.SessionD
 import NcVerif.Driver.RpcErrorD
 import NcVerif.Driver.LockD
 import NcVerif.Driver.OpsD
+import NcVerif.Driver.IsoD
 open NcVerif.Driver
 
 structure DState where
@@ -20,6 +21,7 @@ def stepLine (st : DState) (line : String) : DState × String :=
   | "re" :: rest => (st, rpcErrorCmd rest)
   | "lk" :: rest => (st, lockCmd rest)
   | "ops" :: rest => (st, opsCmd rest)
+  | "iso" :: rest => (st, isoCmd rest)
   | "xt" :: rest => (st, xmlTextCmd rest)
   | "ss" :: rest => let (s', out) := sessionCmd st.sess rest; ({ st with sess := s' }, out)
   | _ => (st, "bad-model")
